@@ -31,6 +31,13 @@ pub fn value_pool() -> Vec<DataValue> {
         DataValue::Float(4.5),
         DataValue::Float(-0.0),
         DataValue::Float(1e300),
+        // neighbours closer than f64::EPSILON, tiny and infinite values: equality is exact
+        DataValue::Float(0.3),
+        DataValue::Float(0.1 + 0.2),
+        DataValue::Float(1e-20),
+        DataValue::Float(f64::INFINITY),
+        DataValue::Float(f64::NEG_INFINITY),
+        DataValue::List(vec![DataValue::Float(0.1 + 0.2)]),
         DataValue::String("5".into()),
         DataValue::String("5.0".into()),
         DataValue::String("true".into()),
@@ -62,6 +69,11 @@ pub fn base_operators() -> Vec<DataOperator<'static>> {
         DataOperator::EqualsInt(0),
         DataOperator::EqualsFloat(5.0),
         DataOperator::EqualsFloat(0.0),
+        DataOperator::EqualsFloat(0.3),
+        DataOperator::EqualsFloat(f64::INFINITY),
+        DataOperator::HasElementFloat(0.3),
+        DataOperator::GreaterThanFloat(0.3),
+        DataOperator::LessThanOrEqualFloat(0.3),
         DataOperator::GreaterThan(4),
         DataOperator::GreaterThanOrEqual(5),
         DataOperator::LessThan(5),
